@@ -19,7 +19,7 @@ def simpson_nodes(n=40001):
     return u, w * (1.0 / (n - 1)) / 3.0
 
 
-FAMILIES = ["gauss", "wall", "bimodal", "periodic", "reflective", "exp-prior", "zero-region"]
+FAMILIES = ["gauss", "wall", "bimodal", "periodic", "reflective", "exp-prior", "zero-region", "narrow"]
 
 
 def make_cell(seed, family=None, kernel=None, clustering=None, resample=None, d=None, N=64):
@@ -42,6 +42,13 @@ def make_cell(seed, family=None, kernel=None, clustering=None, resample=None, d=
         a[0], b[0] = -2.0, 5.0
         centre[0] = a[0] + b[0] * centre[0]
         width[0] = b[0] * width[0]
+    elif fam == "narrow":
+        # likelihood three orders of magnitude narrower than the prior: many temperature levels, and the importance weights of the
+        # prior-phase batches underflow to exactly 0
+        for j in range(d):
+            a[j], b[j] = -10.0, 20.0
+            centre[j] = a[j] + b[j] * float(rng.uniform(0.3, 0.7))
+            width[j] = float(rng.uniform(0.02, 0.06))
     elif fam == "wall":
         centre[0] = float(rng.choice([-0.03, 0.0, 0.04, 1.0, 0.97]))
         width[0] = float(10 ** rng.uniform(-1.3, -0.8))
